@@ -62,6 +62,14 @@ check("C18", "index invariants", "exploration",
       "DESIGN.md §3 C18",
       [R("^TestC18$", 40000, 3000000, steps=40)])
 
+check("C01", "served content hashes to its digest", "exploration",
+      "rapid state machine over upload protocols/algorithms/wrong digests; oracle = independent re-hash of every served body + refusal + blob-file scan",
+      "Randomised stateful search over upload protocols (monolithic, POST+PUT, chunked with drawn boundaries), session/final algorithm combinations, interleaved sessions, "
+      "mounts and manifest pushes with correct and wrong digests on both stores; every body served for any digest or tag of the case is re-hashed independently.",
+      "Trusted: crypto/sha256, crypto/sha512 of the Go standard library as the reference hash; in-process transport (httptest) instead of a socket.",
+      "DESIGN.md §3 C01",
+      [R("^TestC01$", 3000, 120000, steps=25)])
+
 NOT_APPLICABLE = {}
 
 # --------------------------------------------------------------------------- helpers
